@@ -917,7 +917,7 @@ def main():
             report['failures'].append({'file': fname, 'error': str(e)})
             # leave a file that does not compile, so no stale translation can be used by accident
             write_if_changed(os.path.join(outdir, fname),
-                             f'(* TRANSLATION FAILED: {str(e).replace("*)", "* )")} *)\nDefinition translation_failed : False := I.\n')
+                             f'(* TRANSLATION FAILED: {str(e).replace("*", "#")} *)\nDefinition translation_failed : False := I.\n')
             print(f'TRANSLATION FAILED [{fname}]: {e}', file=sys.stderr)
     with open(os.path.join(outdir, 'translate_report.json'), 'w') as f:
         json.dump(report, f, indent=1)
